@@ -184,18 +184,19 @@ class DryRunRenamer:
         # (as the real renamers do), so virtual state is keyed by absolute paths
         source_key = Path(os.path.abspath(source_path))
         destination_key = Path(os.path.abspath(destination_path))
-        source_exists = (
-            os.path.lexists(source_key) or source_key in self.created_paths
-        ) and source_key not in self.removed_paths
-        if not source_exists:
-            raise FileNotFoundError(f"No such file or directory: {source_path}")
-
+        # Conditions are checked in the same order as the real renamers do
         destination_exists = (
             os.path.lexists(destination_key)
             or destination_key in self.created_paths
         ) and destination_key not in self.removed_paths
         if destination_exists and not override:
             raise DestinationAlreadyExistsError(source_path, destination_path)
+
+        source_exists = (
+            os.path.lexists(source_key) or source_key in self.created_paths
+        ) and source_key not in self.removed_paths
+        if not source_exists:
+            raise FileNotFoundError(f"No such file or directory: {source_path}")
 
         self.removed_paths.add(source_key)
         self.created_paths.add(destination_key)
